@@ -691,10 +691,22 @@ func (w *World) execInner(op Op, res *Result) string {
 			res.Err, res.Resp = fmt.Errorf("no maintenance service %q is registered", svcName), "E:unregistered"
 			return hdr(op.K) + fmt.Sprintf(" max=%d victims=", op.Max)
 		}
-		err := w.run(a)
-		res.Err, res.Resp = err, errClass(err)
-		if r, ok := a.Results(); ok && err == nil {
-			res.Resp = fmt.Sprintf("ok:%d", r.NumDeleted)
+		// one round the way the service runs it: its own BEGIN / COMMIT / ROLLBACK around the action
+		// (in the cancel-before-commit mode of the fault runs the harness's own closure is used instead)
+		var err error
+		if w.preCommit == nil {
+			var n int
+			n, err, _ = services.PruneRunOnceForVerif(w.Ctx, svcName, pp, w.Client)
+			res.Err, res.Resp = err, errClass(err)
+			if err == nil {
+				res.Resp = fmt.Sprintf("ok:%d", n)
+			}
+		} else {
+			err = w.run(a)
+			res.Err, res.Resp = err, errClass(err)
+			if r, ok := a.Results(); ok && err == nil {
+				res.Resp = fmt.Sprintf("ok:%d", r.NumDeleted)
+			}
 		}
 		victims := firstQueryCol0(w.Ctl.peek(), func(s string) bool { return strings.Contains(s, "FROM "+table) })
 		f := hdr(op.K) + fmt.Sprintf(" max=%d victims=%s", op.Max, IdList(victims))
